@@ -104,6 +104,8 @@ class VecEval:
             pass
         elif isinstance(s, ast.Raise):
             raise Returned(s, 'raise')
+        elif isinstance(s, ast.Assert):
+            pass
         else:
             raise Unsupported(type(s).__name__)
 
@@ -143,6 +145,11 @@ class VecEval:
         if isinstance(e, ast.Name):
             if e.id in self.env:
                 return self.env[e.id]
+            g = self.func.mod.globals.get(e.id) if hasattr(self.func.mod, 'globals') else None
+            for a in self.func.mod.tree.body:
+                if isinstance(a, ast.Assign) and len(a.targets) == 1 and isinstance(a.targets[0], ast.Name) and a.targets[0].id == e.id and isinstance(a.value, ast.Constant) \
+                        and isinstance(a.value.value, (int, float)):
+                    return a.value.value
             raise Unsupported(f'name {e.id}')
         if isinstance(e, ast.Tuple):
             return tuple(self.expr(x) for x in e.elts)
@@ -291,6 +298,12 @@ class VecEval:
                 if short in ('min', 'max') and any(isinstance(x, float) and x != x for x in v):
                     return float('nan')
                 return {'all': all, 'any': any, 'min': min, 'max': max, 'sum': sum}[short](v)
+        if isinstance(e.func, ast.Name) and callable(self.env.get(e.func.id)):
+            return self.env[e.func.id](*[self.expr(a) for a in e.args])
+        if fn in ('prange', 'numba.prange') and e.args:
+            a_ = [self.expr(x) for x in e.args]
+            if all(isinstance(x, int) for x in a_):
+                return range(*a_)
         if fn == 'len' and len(e.args) == 1 and ast.unparse(e.args[0]) in ('self', 'self.data'):
             return self.n
         if isinstance(e.func, ast.Attribute) and not fn.startswith(('np.', 'numpy.')):
